@@ -884,8 +884,96 @@ func (p *Program) classifyMapKeys(f *ssa.Function, call *ssa.Call) (string, bool
 
 // ---------------------------------------------------------------------------------------------
 
+// ginvSupport: the state a global invariant talks about is never written after package
+// initialisation: the global variables themselves, and the fields read through them.
+func (p *Program) ginvSupport() []sob {
+	var out []sob
+	seenG := map[string]bool{}
+	seenF := map[string]bool{}
+	var walk func(gi *GInv, e *Expr)
+	walk = func(gi *GInv, e *Expr) {
+		if e == nil {
+			return
+		}
+		if e.Op == "sel" && e.Args[0].Op == "ident" {
+			if pk := p.typesPkg[e.Args[0].Name]; pk != nil {
+				if v, ok := pk.Scope().Lookup(e.Name).(*types.Var); ok {
+					gname := shortPkg(pk.Path()) + "." + v.Name()
+					if !seenG[gname] {
+						seenG[gname] = true
+						sp := p.prog.Package(pk)
+						g, _ := sp.Members[v.Name()].(*ssa.Global)
+						var writers []string
+						for _, f := range p.libraryFuncs() {
+							if f.Synthetic == "package initializer" || g == nil {
+								continue
+							}
+							if w, _ := p.globalAccesses(f, g); w {
+								writers = append(writers, p.keyOf[f])
+							}
+						}
+						out = append(out, sob{Name: "immutable.global." + gname, OK: g != nil && len(writers) == 0,
+							Src: gname + " (used by global invariant " + gi.Cl.Label + ") is written by the package initialiser only", Detail: strings.Join(writers, ", ")})
+					}
+				}
+			}
+		}
+		if e.Op == "sel" && e.Args[0].Op == "sel" && e.Args[0].Args[0].Op == "ident" {
+			// pkg.Global.Field
+			if pk := p.typesPkg[e.Args[0].Args[0].Name]; pk != nil {
+				if v, ok := pk.Scope().Lookup(e.Args[0].Name).(*types.Var); ok {
+					if pt, ok := v.Type().Underlying().(*types.Pointer); ok {
+						if nt, ok := pt.Elem().(*types.Named); ok {
+							fname := namedName(nt) + "." + e.Name
+							if !seenF[fname] {
+								seenF[fname] = true
+								var writers []string
+								for _, f := range p.libraryFuncs() {
+									if f.Synthetic == "package initializer" {
+										continue
+									}
+									for _, b := range f.Blocks {
+										for _, in := range b.Instrs {
+											st, ok := in.(*ssa.Store)
+											if !ok {
+												continue
+											}
+											fa, ok := st.Addr.(*ssa.FieldAddr)
+											if !ok {
+												continue
+											}
+											bt := fa.X.Type().Underlying().(*types.Pointer).Elem()
+											if !types.Identical(bt, nt) || bt.Underlying().(*types.Struct).Field(fa.Field).Name() != e.Name {
+												continue
+											}
+											if _, fresh := fa.X.(*ssa.Alloc); !fresh {
+												writers = append(writers, p.keyOf[f])
+											}
+										}
+									}
+								}
+								out = append(out, sob{Name: "immutable.field." + fname, OK: len(writers) == 0,
+									Src: "field " + fname + " (read by global invariant " + gi.Cl.Label + ") is only written when the object is created", Detail: strings.Join(writers, ", ")})
+							}
+						}
+					}
+				}
+			}
+		}
+		for _, a := range e.Args {
+			walk(gi, a)
+		}
+	}
+	for _, gi := range p.contracts.ginvs {
+		walk(gi, gi.Cl.Expr)
+	}
+	return out
+}
+
 func structuralFor(p *Program, id string) []sob {
 	switch id {
+	case "C01", "C05", "C14", "C13", "C12":
+		return p.ginvSupport()
 	case "C10":
 		return p.effectObligations()
 	case "C11":
@@ -952,7 +1040,7 @@ func addStructuralCoverage(p *Program, id, tier string, res *propResult, violLin
 }
 
 func writeStructuralReplay(id string, o sob) string {
-	return writeJSON("/verif/replays/"+id, sanitize(o.Name)+".json", map[string]interface{}{
+	return writeJSON(outDir("replays")+"/"+id, sanitize(o.Name)+".json", map[string]interface{}{
 		"property": id, "obligation": o.Name, "kind": "structural", "clause": o.Src, "detail": o.Detail, "position": o.Pos.String(),
 		"replay_status": "no-failing-input-found", "note": "structural obligation (no solver model): the named clause does not hold of the code at the given position",
 	})
